@@ -330,4 +330,49 @@ package agent
 //@   loop 2 invariant prev_kept [C30]: forall(func(k string) bool { return mapHas(prev, k) == old(mapHas(prev, k)) && mapAt(prev, k) == old(mapAt(prev, k)) })
 //@ end
 
+// ---------------------------------------------------------------- log gate (C29, first sentence)
+
+//@ import "io"
+
+// the buffer and the gate flag are only touched with the write lock held
+//@ guards GatedWriter.lock: GatedWriter.buf, GatedWriter.flush
+// once the gate is open nothing is buffered
+//@ pure func wfGate(w *GatedWriter) bool {
+//@   return w != nil && w.Writer != nil && len(w.buf) >= 0 && (nilSlice(w.buf) ==> len(w.buf) == 0) && (nilSlice(w.buf) || arrayAllocated(w.buf)) &&
+//@     (w.flush ==> len(w.buf) == 0) &&
+//@     forall(func(j int) bool { return 0 <= j && j < len(w.buf) ==> len(w.buf[j]) >= 0 && (nilSlice(w.buf[j]) || arrayAllocated(w.buf[j])) })
+//@ }
+
+// Write is one critical section: with the gate open the data goes straight to the sink, with the gate closed a copy
+// is appended to the buffer (earlier chunks and their bytes untouched) and nothing reaches the sink yet
+//@ func (w *GatedWriter) Write(p []byte) (n int, err error)
+//@   requires wf: wfGate(w) && len(p) >= 0
+//@   oldlet n0 := len(w.buf)
+//@   oldlet open := w.flush
+//@   oldlet wn0 := logN("written")
+//@   ensures wf [C29]: wfGate(w) && w.flush == open
+//@   ensures gate_open_passes_through [C29]: open ==> logN("written") == wn0+1 && sameSlice(logAt[[]byte]("written", wn0), p) &&
+//@       same(logAt[io.Writer]("writtento", wn0), w.Writer) && len(w.buf) == n0
+//@   ensures gate_closed_buffers_a_copy [C29]: !open ==> logN("written") == wn0 && len(w.buf) == n0+1 && n == len(p) && err == nil &&
+//@       len(w.buf[n0]) == len(p) && forall(func(i int) bool { return 0 <= i && i < len(p) ==> w.buf[n0][i] == p[i] })
+//@   ensures earlier_chunks_kept [C29]: forall(func(j int) bool { return 0 <= j && j < n0 ==> sameSlice(w.buf[j], old(w.buf[j])) }) && allocatedElemsKept(p)
+//@ end
+
+// Flush is one critical section: every buffered chunk goes to the sink exactly once, in buffer order, before the lock
+// is released -- so nothing written later can overtake it -- and the gate is open afterwards
+//@ func (w *GatedWriter) Flush()
+//@   requires wf: wfGate(w)
+//@   oldlet n0 := len(w.buf)
+//@   oldlet wn0 := logN("written")
+//@   ensures wf [C29]: wfGate(w)
+//@   ensures gate_open [C29]: w.flush && len(w.buf) == 0
+//@   ensures drained_once_in_order [C29]: logN("written") == wn0+n0 && forall(func(j int) bool { return 0 <= j && j < n0 ==>
+//@       sameSlice(logAt[[]byte]("written", wn0+j), old(w.buf[j])) && same(logAt[io.Writer]("writtento", wn0+j), w.Writer) })
+//@   loop 1 vars ri=rangeindex int
+//@   loop 1 invariant progress [C29]: -1 <= ri && ri < n0 && len(w.buf) == n0 && w.flush && logN("written") == wn0+ri+1 && same(w.Writer, old(w.Writer))
+//@   loop 1 invariant buffer_kept [C29]: forall(func(j int) bool { return 0 <= j && j < n0 ==> sameSlice(w.buf[j], old(w.buf[j])) })
+//@   loop 1 invariant written_so_far [C29]: forall(func(j int) bool { return 0 <= j && j <= ri ==>
+//@       sameSlice(logAt[[]byte]("written", wn0+j), old(w.buf[j])) && same(logAt[io.Writer]("writtento", wn0+j), w.Writer) })
+//@ end
+
 // END-OF-CONTRACTS
